@@ -163,7 +163,8 @@ def run(ctx: common.Ctx):
         'excludes under the relaxed setting; every added peptide must be attributable (SECT/W2F entry, '
         'outside the stricter limit, header names an added record). non-trivial = pair with a non-empty '
         'difference')
-    base = dict(vary=True, per_tx=(2, 7), max_size=6, window=24, witness=False, exception=None)
+    base = dict(vary=True, per_tx=(2, 7), max_size=6, window=24, witness=False, exception=None,
+                as_frac=0.3)
     res = cv_checks.explore(ctx, ctx.n(170, 3000),
                             dict(base, variations=['misc', 'minlen', 'maxlen', 'minmw', 'sect', 'w2f', 'addvar']))
     s1 = dict(ctx.coverage['worker_stats'])
